@@ -114,6 +114,37 @@ def run(ctx):
     for xml in heavy:
         jobs.append(("convert", xml))
         jobs.append(("to_etree", {"xml": xml}))
+    # directed: failing inputs of every kind for the classes with a validator of their own, each next to valid documents
+    # that use every optional child of the class (a failure must leave nothing behind that a later document sees)
+    import c04
+    customs = [c for c in sorted(schema) if schema[c]["custom_validate"] and c in mins]
+    others = rnd.sample([c for c in sorted(schema) if c not in customs and c in mins], 10 if quick else 120)
+    directed = []       # the jobs of the classes with their own validator: always part of the fresh-interpreter runs
+    nvar = 0
+    for cls in customs + others:
+        mine = []
+        for lab, exp, node, routes in c04.variants(cls, mins[cls], schema, types, mins, rnd):
+            try:
+                xml = dc.render_text(dc.from_nested(node), "xml")
+                ET.fromstring(xml)
+            except Exception:
+                continue
+            mine.append(("convert", xml))
+        for a in schema[cls]["attrs"]:
+            if a["k"] in ("sub", "lagg", "elem", "lelem") and not a["req"]:
+                try:
+                    xml = dc.render_text(dc.from_nested(add_child(mins[cls], cls, a, schema, types, mins)), "xml")
+                    ET.fromstring(xml)
+                except Exception:
+                    continue
+                mine.append(("convert", xml))
+                mine.append(("to_etree", {"xml": xml}))
+        nvar += len(mine)
+        jobs += mine
+        if cls in customs:
+            directed += mine
+    ctx.extra["directed_variant_jobs"] = nvar
+    ctx.extra["classes_with_own_validator"] = customs
     rnd.shuffle(jobs)
     evs = []
 
@@ -123,8 +154,10 @@ def run(ctx):
             evs.append(e)
 
     # (a) fresh interpreters, two different orders, on a subset
-    sub = jobs[: (150 if quick else 1500)]
-    for name, order in (("fresh-forward", sub), ("fresh-reverse", list(reversed(sub)))):
+    sub = jobs[: (150 if quick else 1500)] + directed
+    rnd.shuffle(sub)
+    # ... and once after a prelude that uses the abstract base classes before any concrete class
+    for name, order in (("fresh-forward", sub), ("fresh-reverse", list(reversed(sub))), ("fresh-bases-first", [("prelude", "bases")] + sub)):
         jf = os.path.join(ctx.work, name + ".job.json")
         of = os.path.join(ctx.work, name + ".out.json")
         json.dump(order, open(jf, "w"))
